@@ -157,6 +157,10 @@ def invocations(ctx: Ctx):
     return out
 
 
+def capflag_of(k):
+    return k % 6 == 5
+
+
 def collect(ctx, invs):
     rng = ctx.rng
     vectors = []
@@ -166,14 +170,18 @@ def collect(ctx, invs):
         st.pop("beep")
         if k % 7 == 0:
             st["hum"] = 0
+        fan_cap = [bytes([0x10, 0x02, 1, 1]), bytes([0x10, 0x02, 1, 0]), bytes([0x10, 0x02, 1, 7]), b""][(k // 6) % 4]   # custom speeds / presets only / none
+        if capflag_of(k) and not fan_cap[3:4] == b"\x01" and k % 12 == 5:
+            st["fan"] = rng.choice([1, 19, 33, 55, 79, 99, 101])             # the unit currently runs at a raw (non-preset) speed
         model = acdev.ACModel(state=dict(st, display=rng.random() < 0.5), state_len=24,
-                              caps_pages=[bytes([0xB5, 2, 0x10, 0x02, 1, 1, 0x14, 0x02, 1, 0, 0, 0])],      # custom fan speeds, modes; NO display control
+                              caps_pages=[bytes([0xB5, 1 + (1 if fan_cap else 0)]) + fan_cap + bytes([0x14, 0x02, 1, 0, 0, 0])],      # fan capability varies, modes; NO display control
                               props={0x09: b"\x00", 0x0A: b"\x00", 0x48: b"\x64", 0x42: b"\x01", 0x18: b"\x00", 0xE3: b"\x01\x00", 0x43: b"\x01"})
         rep = snap(model)
-        capflag = ["--capabilities"] if k % 6 == 5 else []          # capabilities queried before the settings are applied
+        capflag = ["--capabilities"] if capflag_of(k) else []          # capabilities queried before the settings are applied
         argv = ["control", "10.0.0.50"] + capflag + (["--token", TOK.hex(), "--key", KEY.hex(), "--id", str(rng.getrandbits(40))] if ver == 3 else []) + list(args)
         obs = run_cli(argv, model, ver)
-        obs.update(args=[B(a.encode()) for a in args], reported=rep, after=snap(model), ver=ver, argv=args, capflag=bool(capflag))
+        obs.update(args=[B(a.encode()) for a in args], reported=rep, after=snap(model), ver=ver, argv=args, capflag=bool(capflag),
+                   fan_raw_without_custom_capability=bool(fan_cap[3:4] != b"\x01" and rep["fan"] not in (20, 40, 60, 80, 100, 102)))
         vectors.append(obs)
         ctx.count_distinct(tuple(args))
     return vectors
@@ -189,7 +197,7 @@ def judge(ctx, vectors, canaries=True):
         c = copy.deepcopy(ok[1]); c["exit"] = 1; cans.append(c)
         c = copy.deepcopy(bad[0]); c["exit"] = 0; cans.append(c)
         c = copy.deepcopy(bad[1]); c["sent"] = 3; cans.append(c)
-    rej = ctx.validate_vectors("Trace_Cli", [{k: v for k, v in x.items() if k not in ("argv", "capflag")} for x in vectors + cans])
+    rej = ctx.validate_vectors("Trace_Cli", [{k: v for k, v in x.items() if k not in ("argv", "capflag", "fan_raw_without_custom_capability")} for x in vectors + cans])
     n = len(vectors)
     if canaries and len({i for i, _ in rej if i >= n}) != len(cans):
         raise MachineryError("Trace_Cli accepted a canary")
@@ -198,7 +206,8 @@ def judge(ctx, vectors, canaries=True):
         if i < n:
             v = vectors[i]
             ctx.violation("control " + ("--capabilities " if v.get("capflag") else "") + " ".join(v["argv"])[:160] + f" (V{v['ver']})", clause,
-                          {"argv": v["argv"], "capflag": v.get("capflag", False), "ver": v["ver"], "reported": v["reported"], "after": v["after"], "exit": v["exit"], "exc": v["exc"], "sent": v["sent"]})
+                          {"argv": v["argv"], "capflag": v.get("capflag", False), "fan_raw_without_custom_capability": v.get("fan_raw_without_custom_capability", False),
+                           "display_toggled": bool(v["reported"].get("display") != v["after"].get("display")), "ver": v["ver"], "reported": v["reported"], "after": v["after"], "exit": v["exit"], "exc": v["exc"], "sent": v["sent"]})
 
 
 def run(ctx: Ctx) -> int:
